@@ -290,6 +290,43 @@ def judge(w, tap, scenario, reach):
             return V('response_not_drawn_from_offer_installed', {'missing_types': str(missing), 'initial': ch['initial']},
                      f'{ch["x_init"]} installed CHILD_SA {ch["spi_init"].hex()}/{ch["spi_resp"].hex()} although the response proposal '
                      f'{sorted(tset(c))} is not drawn from its offer {[sorted(tset(p)) for p in ch["offer"]]} (transform types missing: {missing})')
+    # ---- what an endpoint offers for a CHILD_SA is its local policy for those selectors - every transform type the policy requires, all its
+    #      algorithms, nothing else -, in every generation of a rekey lineage (the suite chosen can then only come out of both policies)
+    import ipaddress as _ip
+    from checks.c12 import ent_ts
+    for m in tap.messages:
+        if m['clear'] or m['h']['R'] or m['h']['exch'] not in (R.IKE_AUTH, R.CREATE_CHILD_SA) or m.get('rewritten') or scenario.get('byz'):
+            continue
+        sa_p = next((p for p in m['payloads'] if p['type'] == R.P_SA), None)
+        tsi = next((p for p in m['payloads'] if p['type'] == R.P_TSi), None)
+        tsr = next((p for p in m['payloads'] if p['type'] == R.P_TSr), None)
+        if sa_p is None or tsi is None or tsr is None or not sa_p['proposals'] or sa_p['proposals'][0]['proto'] == R.PROTO_IKE:
+            continue
+        try:
+            conn = configs.read_conf(scenario['nodes'][m['sender']]['conf']).get((_ip.ip_address(m['src']), _ip.ip_address(m['dst'])))
+        except Exception:
+            conn = None
+        if conn is None:
+            continue
+        transport = any(p['type'] == R.P_NOTIFY and p['ntype'] == R.N_USE_TRANSPORT_MODE for p in m['payloads'])
+        inside = [e for e in conn['protect'] if (e['mode'] == 'transport') == transport and all(ts_subset(x, ent_ts(e, 'my')) for x in tsi['selectors'])
+                  and all(ts_subset(y, ent_ts(e, 'peer')) for y in tsr['selectors'])]
+        if not inside:
+            continue
+
+        def suite_of(e, with_dh):
+            t = {(1, i, k) for (i, k) in e['encr']} | {(3, i, None) for i in e['integ']} | {(5, 0, None)}
+            if with_dh:
+                t |= {(4, i, None) for i in e['dh']}
+            return (R.PROTO_ESP if e['ipsec_proto'] == 'esp' else R.PROTO_AH), t
+        pr = sa_p['proposals'][0]
+        got = (pr['proto'], {(t['type'], t['id'], t['keylen']) for t in pr['transforms']})
+        reach['offers_judged'] = reach.get('offers_judged', 0) + 1
+        if len(sa_p['proposals']) != 1 or not any(got == suite_of(e, d) for e in inside for d in ((True, False) if m['h']['exch'] == R.IKE_AUTH else (True,))):
+            rekey = any(p['type'] == R.P_NOTIFY and p['ntype'] == R.N_REKEY_SA for p in m['payloads'])
+            return V('offer_is_not_the_local_policy', {'exchange': 'IKE_AUTH' if m['h']['exch'] == R.IKE_AUTH else 'CREATE_CHILD_SA', 'rekey': rekey},
+                     f'{m["sender"]} offered protocol {got[0]} with transforms {sorted(got[1], key=str)} for selectors of a protect entry whose suite is '
+                     f'{[(suite_of(e, True)[0], sorted(suite_of(e, True)[1], key=str)) for e in inside][:2]}')
     if not scenario.get('byz'):
         v = judge_installed(w, tap.children, reach)
         if v is not None:
